@@ -158,7 +158,7 @@ pub fn run_tx(sys: &mut Sys, tx: &TxSpec, via: Via, faults: &FaultPlan, coinbase
     r
 }
 
-fn apply_reconfig(sys: &mut Sys, op: &HOp, block: &mut BlockSpec, noop_regs: &mut u32) {
+pub(crate) fn apply_reconfig(sys: &mut Sys, op: &HOp, block: &mut BlockSpec, noop_regs: &mut u32) {
     match op {
         HOp::SetSpec { spec, how } => {
             let s = SpecId::from(spec.as_str());
